@@ -765,11 +765,19 @@ func (p *Parser) checkStrictEmptySemicolon() error {
 	return nil
 }
 
-// advance moves to the next token
+// advance moves to the next token.
+//
+// Token slices built by hand may lack the trailing EOF token the tokenizer
+// appends. For those the last token stays current for the first step past the
+// end (existing callers rely on that), but any further step yields EOF, so a
+// loop of the form "while the current token is X: advance, parse" always
+// terminates instead of spinning on the stale last token.
 func (p *Parser) advance() {
 	p.currentPos++
 	if p.currentPos < len(p.tokens) {
 		p.currentToken = p.tokens[p.currentPos]
+	} else if p.currentPos > len(p.tokens) {
+		p.currentToken = token.Token{Type: models.TokenTypeEOF}
 	}
 }
 
